@@ -16,7 +16,7 @@ Wu(stream, hi, lo, rbit) == [k |-> "wu", stream |-> stream, inc |-> <<hi, lo>>, 
 Pr(stream, excl, dhi, dlo, w) == [k |-> "prio", stream |-> stream, p |-> [excl |-> excl, dep |-> <<dhi, dlo>>, weight |-> w], rbit |-> FALSE]
 Fd(n, v) == F(n, v, "idx", TRUE, FALSE, FALSE)
 Hd(order, o) == [k |-> "headers", stream |-> 1, o |-> o,
-                 list |-> [i \in 1..Len(order) |-> Fd(order[i], CASE order[i] = ":method" -> "GET" [] order[i] = ":path" -> "/" [] order[i] = ":scheme" -> "https" [] order[i] = ":authority" -> "example.com")]
+                 list |-> [i \in 1..Len(order) |-> Fd(order[i], CASE order[i] = ":method" -> "GET" [] order[i] = ":path" -> "/" [] order[i] = ":scheme" -> "https" [] order[i] = ":authority" -> "example.com" [] OTHER -> "gzip")]
                           \o <<Fd("user-agent", "x"), Fd("accept", "*/*")>>]
 PingF == [k |-> "ping"]
 DataF == [k |-> "data", stream |-> 1, n |-> 5]
@@ -28,7 +28,9 @@ SettingsS == {Chrome, Firefox, Edge, S_(<<Pm(4, 0, 0)>>)}
 WuS == {<<>>, <<Wu(0, 239, 1, FALSE)>>, <<Wu(0, 191, 1, TRUE)>>, <<Wu(0, 32767, 65535, FALSE)>>, <<Wu(0, 0, 1, FALSE)>>, <<Wu(3, 0, 77, FALSE), Wu(0, 0, 12, FALSE)>>}
 PrS == {<<>>, <<Pr(3, FALSE, 0, 0, 200), Pr(5, FALSE, 0, 0, 100), Pr(7, TRUE, 0, 3, 0)>>, <<Pr(1, TRUE, 32767, 65535, 255)>>}
 Orders == {<<":method", ":path", ":authority", ":scheme">>, <<":method", ":authority", ":scheme", ":path">>, <<":method", ":scheme", ":path", ":authority">>,
-           <<":method", ":path", ":scheme">>}
+           <<":method", ":path", ":scheme">>,
+           \* regular fields between the pseudo-headers (malformed per RFC 7540 8.1.2.1, but the order of the pseudo-headers is still defined)
+           <<":method", "accept-encoding", ":scheme", ":path", ":authority">>, <<"accept-encoding", ":method", ":path", ":scheme">>}
 Framings == {Plain, [Plain EXCEPT !.pad = 3], [Plain EXCEPT !.prio = <<[excl |-> FALSE, dep |-> <<0, 0>>, weight |-> 15]>>], [Plain EXCEPT !.cuts = <<2>>]}
 
 Seqs ==
